@@ -522,8 +522,17 @@ func c08Root(w *W, st ref.Stamp, full bool) {
 			w.Violate("total", what+"/"+fmt.Sprint(pv), fmt.Sprintf("%s panicked at root %s: %v", what, key, pv), map[string]string{"root": key})
 		}
 	}
+	// used = fresh: after an object's accessors (and those of what they return) were all called, the object still answers
+	// like a freshly built one (no accessor edits what another accessor reads)
+	walkStable := func(what string, depth int, mk func() interface{}) {
+		o := mk()
+		cw.walk(reflect.ValueOf(o), depth)
+		if used, fresh := digest1(o), digest1(mk()); used != fresh {
+			w.Violate("stable", what+"/"+key, fmt.Sprintf("%s at %s answers differently after all its accessors were called once than a freshly built one: %s", what, key, diffDigests(fresh, used)), map[string]string{"root": key})
+		}
+	}
 	// Solar + Lunar and everything below (EightChar sect 2 by default)
-	wrap("Solar", func() { cw.reset(); cw.walk(reflect.ValueOf(solarOf(st)), 1) })
+	wrap("Solar", func() { cw.reset(); walkStable("Solar", 1, func() interface{} { return solarOf(st) }) })
 	wrap("Lunar", func() {
 		cw.reset()
 		l := solarOf(st).GetLunar()
@@ -545,9 +554,11 @@ func c08Root(w *W, st ref.Stamp, full bool) {
 	// EightChar under sect 1 (fresh object: SetSect mutates the chart shared through the Lunar)
 	wrap("EightChar sect 1", func() {
 		cw.reset()
-		ec := solarOf(st).GetLunar().GetEightChar()
-		ec.SetSect(1)
-		cw.walk(reflect.ValueOf(ec), 1)
+		walkStable("EightChar sect 1", 1, func() interface{} {
+			ec := solarOf(st).GetLunar().GetEightChar()
+			ec.SetSect(1)
+			return ec
+		})
 	})
 	w.Distinct(1)
 	// fortunes: 2 genders x 2 schools
@@ -595,8 +606,20 @@ func c08Root(w *W, st ref.Stamp, full bool) {
 	wrap("LunarYear/LunarMonth", func() {
 		cw.reset()
 		l := solarOf(st).GetLunar()
-		cw.walk(reflect.ValueOf(calendar.NewLunarYear(l.GetYear())), 1)
-		cw.walk(reflect.ValueOf(calendar.NewLunarMonthFromYm(l.GetYear(), l.GetMonth())), 1)
+		// (these two are handed out from the year cache: the "fresh" one is built after a cache reset)
+		walkStable("LunarYear", 1, func() interface{} { calendar.VerifResetCache(); return calendar.NewLunarYear(l.GetYear()) })
+		// the month of the root and a second month of the same lunar year (the year walk above spends its month budget on
+		// the first entries of the table, which belong to the previous lunar year)
+		cw.budget["LunarMonth"] = 1
+		walkStable("LunarMonth", 1, func() interface{} {
+			calendar.VerifResetCache()
+			return calendar.NewLunarMonthFromYm(l.GetYear(), l.GetMonth())
+		})
+		cw.budget["LunarMonth"] = 1
+		walkStable("LunarMonth", 1, func() interface{} {
+			calendar.VerifResetCache()
+			return calendar.NewLunarMonthFromYm(l.GetYear(), 1+(st.D+st.H)%12)
+		})
 	})
 	// civil units
 	for start := 0; start < 7; start++ {
@@ -604,17 +627,17 @@ func c08Root(w *W, st ref.Stamp, full bool) {
 		wrap(fmt.Sprintf("SolarWeek start %d", start), func() {
 			cw.reset()
 			cw.budget["Solar"] = 0
-			cw.walk(reflect.ValueOf(calendar.NewSolarWeekFromYmd(st.Y, st.M, st.D, start)), 1)
+			walkStable(fmt.Sprintf("SolarWeek start %d", start), 1, func() interface{} { return calendar.NewSolarWeekFromYmd(st.Y, st.M, st.D, start) })
 		})
 		w.Distinct(1)
 	}
 	wrap("SolarMonth/Season/HalfYear/Year", func() {
 		cw.reset()
 		cw.budget["Solar"] = 0
-		cw.walk(reflect.ValueOf(calendar.NewSolarMonthFromYm(st.Y, st.M)), 1)
-		cw.walk(reflect.ValueOf(calendar.NewSolarSeasonFromYm(st.Y, st.M)), 1)
-		cw.walk(reflect.ValueOf(calendar.NewSolarHalfYearFromYm(st.Y, st.M)), 1)
-		cw.walk(reflect.ValueOf(calendar.NewSolarYearFromYear(st.Y)), 1)
+		walkStable("SolarMonth", 1, func() interface{} { return calendar.NewSolarMonthFromYm(st.Y, st.M) })
+		walkStable("SolarSeason", 1, func() interface{} { return calendar.NewSolarSeasonFromYm(st.Y, st.M) })
+		walkStable("SolarHalfYear", 1, func() interface{} { return calendar.NewSolarHalfYearFromYm(st.Y, st.M) })
+		walkStable("SolarYear", 1, func() interface{} { return calendar.NewSolarYearFromYear(st.Y) })
 	})
 	if h := HolidayUtil.GetHolidayByYmd(st.Y, st.M, st.D); h != nil {
 		wrap("Holiday", func() { cw.reset(); cw.walk(reflect.ValueOf(h), 0) })
@@ -733,6 +756,24 @@ func c08Run(w *W, c Case) {
 				continue // those days do not exist
 			}
 			roots = append(roots, ref.Stamp{Y: y, M: m, D: 5 + rng.Intn(10)}, ref.Stamp{Y: y, M: m, D: 5 + rng.Intn(10), H: 23, Mi: 30})
+		}
+	}
+	// (j) the first weeks of the civil year (usually still the previous lunar year): one seeded day in 1..20 January; where the
+	// lunar New Year itself falls before 21 January or in the previous December (the lunar year runs ahead of the civil
+	// year), every third day of January
+	roots = append(roots, ref.Stamp{Y: y, M: 1, D: 1 + rng.Intn(20), H: rng.Intn(24), Mi: rng.Intn(60)})
+	if l := calendar.NewSolarFromYmd(y, 1, 20).GetLunar(); l.GetYear() >= y {
+		for d := 1; d <= 19; d += 3 {
+			roots = append(roots, ref.Stamp{Y: y, M: 1, D: d, H: 8 + d%12})
+		}
+		w.Count("years-whose-lunar-year-leads-in-january", 1)
+	}
+	// (k) the first and last three years of the range get a root every ninth day (index arithmetic on year numbers is
+	// most fragile where year - 4, year / 60 and the like change sign or run off a table)
+	if y <= 3 || y >= maxYear-2 {
+		for jj := ref.JDN(y, 1, 1) + rng.Intn(9); jj <= ref.JDN(y, 12, 31); jj += 9 {
+			dy, dm, dd := ref.FromJDN(jj)
+			roots = append(roots, ref.Stamp{Y: dy, M: dm, D: dd, H: jj % 24, Mi: 30})
 		}
 	}
 	if !w.Quick {
